@@ -276,17 +276,18 @@ def run(chk, replay=None):
         fc = csep.load_gridded_forecast(path, start_date=start.replace(tzinfo=tz), end_date=end.replace(tzinfo=tz))
         base = numpy.array(fc.data, dtype=float)
         factors = [1.0]
+        date_ids = set()          # factors that came from scale_to_test_date (differences of decimal years)
         calls = []
         desc = []
         for _ in range(rng.randint(1, 30 if not quick else 12)):
             op = rng.choice(['scale', 'scale', 'date', 'date-outside', 'read'])
             fid = 0
             if op == 'scale':
-                v = rng.choice([0.5, 2.0, 0.25, 4.0, 1.0, 0.1, 3.0, 1e-3, 365.25])
+                v = rng.choice([0.5, 2.0, 0.25, 4.0, 1.0, 0.1, 3.0, 1e-3, 365.25, 0.0])     # (0 switches the forecast off; 1 brings it back)
                 if rng.random() < 0.25:
                     # scale() also takes an array: one weight per magnitude bin, per cell, or per (cell, bin)
                     shp = rng.choice([(base.shape[1],), (base.shape[0], 1), base.shape])
-                    v = numpy.array([rng.choice([0.5, 2.0, 0.25, 1.0, 3.0]) for _ in range(int(numpy.prod(shp)))]).reshape(shp)
+                    v = numpy.array([rng.choice([0.5, 2.0, 0.25, 1.0, 3.0, 0.0]) for _ in range(int(numpy.prod(shp)))]).reshape(shp)
                     if numpy.all(v == v.ravel()[0]):
                         v.ravel()[0] = 4.0 if v.ravel()[0] != 4.0 else 0.5
                     if v.size == 1:
@@ -306,6 +307,7 @@ def run(chk, replay=None):
                 v = float((dy(d + datetime.timedelta(1)) - dy(start)) / (dy(end) - dy(start)))
                 factors.append(v)
                 fid = len(factors) - 1
+                date_ids.add(fid)
                 desc.append(('scale_to_test_date', str(d)))
             elif op == 'date-outside':
                 d = rng.choice([start - datetime.timedelta(days=rng.randint(0, 400)), end + datetime.timedelta(days=rng.randint(0, 400))])
@@ -325,7 +327,7 @@ def run(chk, replay=None):
             for k_, f_ in enumerate(factors):
                 exact = data.shape == base.shape and data.tobytes() == (base * f_).tobytes()
                 # a date factor is a difference of decimal years (~2010.x): cancellation costs eps*2200/f relative
-                rt = 1e-12 + (8 * 2.0 ** -52 * 2200.0 / max(float(numpy.min(f_)), 1e-300) if k_ > 0 else 0.0)
+                rt = 1e-12 + (8 * 2.0 ** -52 * 2200.0 / max(float(numpy.min(f_)), 1e-300) if k_ in date_ids else 0.0)
                 if exact or (data.shape == base.shape and numpy.allclose(data, base * f_, rtol=rt, atol=0.0)):
                     # prefer the most recent identifier of an equal factor value
                     if ratio == -1 or fkey(factors[k_]) == fkey(factors[ratio]) or exact:
